@@ -28,42 +28,31 @@ open OPM.Tags OPM.Gen.TagSites
 theorem sites_pass_tick_time : ∀ s ∈ setSites, s.cls.ok = true := by
   decide +kernel
 
-/-- The sites that stamp with the wall clock instead of the tick time (handlers that are not given a tick time). -/
-theorem wall_clock_sites_pinned :
-    ((setSites.filter (fun s => s.cls = .wallClock)).map (fun s => (s.func, s.method))) =
-      [("MarkTag.archive", "set_value"), ("AccumulatorTag.reset", "set_value"),
-       ("BlockTimeTag.on_start", "set_value"), ("ScopeTimeTag.on_start", "set_value"),
-       ("ScopeTimeTag.on_scope_start", "set_value"),
-       ("AccumulatorBlockTag.on_block_start", "set_value"), ("AccumulatorBlockTag.on_block_end", "set_value"),
-       ("AccumulatedColumnVolume.reset", "set_value"),
-       ("DerivedTag._set_calculated_value", "set_value"), ("DerivedTag._set_calculated_value", "simulate_value"),
-       ("DerivedTag.stop_simulation", "simulate_value"), ("ArchiverTag.on_start", "set_value"),
-       ("ArchiverTag.on_stop", "set_value"),
-       ("ErrorRecoveryDecorator._update_connection_status", "set_value")] := by
+/-- Structural statement about the wall-clock sites (no function names pinned): a site stamps with the wall clock
+    only where no tick time is at hand — the enclosing function has no `tick_time` parameter and its class never
+    reads a `_tick_time` field (event handlers such as `on_start`, `reset`, `archive`).  Where a tick time is at
+    hand, it is what the site passes. -/
+theorem wall_clock_only_without_tick_time : ∀ s ∈ setSites, s.expr = .wall → s.timeAtHand = false := by
   decide +kernel
 
-/-- The forwarding sites are the two validating wrappers around `Tag.set_value`. -/
-theorem forward_sites_pinned :
-    ((setSites.filter (fun s => s.cls = .forward)).map (fun s => s.func)) =
-      ["ReadingTag.set_value", "SelectTag.set_value"] := by
+/-- A forwarding site is always an overriding wrapper: `super().<same method>(val, *args)` inside a method of that
+    name (the caller's time argument is handed on unchanged). -/
+theorem forward_sites_are_wrappers : ∀ s ∈ setSites, s.expr = .forward → s.wrapper = true := by
   decide +kernel
 
-/-- The interpreter's and the engine's sites are present (the scan is not empty-handed):
-    the Block tag (3 sites) and Simulate (2 sites) pass the tick time. -/
-theorem block_and_simulate_sites_pass_tick_time :
-    ((setSites.filter (fun s => s.func = "PInterpreter.visit_BlockNode" ∨ s.func = "PInterpreter.visit_EndBlockNode"
-        ∨ s.func = "PInterpreter.visit_EndBlocksNode" ∨ s.func = "PInterpreter.visit_SimulateNode")).map
-      (fun s => s.cls)) = [.tickTime, .tickTime, .tickTime, .tickTime, .tickTime] := by
+/-- Every site of the interpreter (Block tag, Mark, Base, Run counter, Simulate …) passes the interpreter's
+    `_tick_time` field — never the tick number; the scan is not empty-handed. -/
+theorem interpreter_sites_pass_the_field :
+    (∀ s ∈ setSites, s.file = "lang/exec/pinterpreter.py" → s.expr = .interpField) ∧
+      5 ≤ (setSites.filter (fun s => s.file = "lang/exec/pinterpreter.py")).length := by
   decide +kernel
 
-/-- `self._tick_time` (Engine, PInterpreter) is only ever assigned the `tick_time` parameter of the tick. -/
+/-- `self._tick_time` (Engine, PInterpreter) is only ever assigned the `tick_time` parameter of the tick, and both
+    classes do assign it. -/
 theorem tick_time_fields_hold_the_tick_time :
-    ∀ w ∈ tickTimeFieldWrites, w.init = true ∨ w.cls = .tickTime := by
-  decide +kernel
-
-theorem tick_time_fields_written :
-    ((tickTimeFieldWrites.filter (fun w => !w.init)).map (fun w => w.func)) =
-      ["PInterpreter.tick_iterate_subticks", "Engine.tick"] := by
+    (∀ w ∈ tickTimeFieldWrites, w.init = true ∨ w.expr = .param) ∧
+      (∃ w ∈ tickTimeFieldWrites, w.init = false ∧ w.file = "engine/engine.py") ∧
+      (∃ w ∈ tickTimeFieldWrites, w.init = false ∧ w.file = "lang/exec/pinterpreter.py") := by
   decide +kernel
 
 /-- Direct assignments to a tag's `tick_time` outside `__init__` use the tick time or the wall clock. -/
@@ -111,82 +100,40 @@ theorem tick_time_handed_down :
   decide +kernel
 
 /-- **Derived discipline, engine side.**  Start `Engine.tick(t)` in any environment (stale fields from the tick
-    before), with the wall clock reading `t`; run the translated statements through any sequence of phases
-    (non-structural calls).  At the phase reached, parameter, engine field and wall clock all read `t`. -/
+    before), with the wall clock reading `t`; run the translated statements through any sequence of phases (calls
+    that may reach a tag).  At the phase reached, parameter, engine field and wall clock all read `t`. -/
 theorem phase_env_fresh (e0 : Env) (t : Time) (phases : List String) (hne : phases ≠ [])
-    (hs : ∀ p ∈ phases, structuralCall p = false) (e : Env) (rest : List Stmt)
+    (e : Env) (rest : List Stmt)
     (h : advanceMany phases engineTickStmts (e0.enterTick t t) = some (e, rest)) :
     e.param = t ∧ e.engineField = t ∧ e.wall = t := by
   have := advanceMany_fresh t phases engineTickStmts (e0.enterTick t t) false engine_tick_assigns_before_use
-    rfl (fun h => by cases h) hs hne e rest h
+    rfl (fun h => by cases h) hne e rest h
   exact ⟨this.1, this.2.1, this.2.2⟩
 
-/-- **Derived discipline, interpreter side.**  The interpreter phase is entered with the tick's time as argument, and
-    inside it the interpreter's own field reads `t` as well. -/
-theorem interp_env_fresh (e0 : Env) (t : Time) (pre : List String) (hs : ∀ p ∈ pre, structuralCall p = false)
+/-- **Derived discipline, interpreter side.**  A phase that hands the tick time down (`passes`, e.g.
+    `self.interpreter.tick(tick_time, …)`) is entered with the tick's time as argument, and inside the interpreter
+    its own field reads `t` as well. -/
+theorem interp_env_fresh (e0 : Env) (t : Time) (pre : List String) (phase : String)
     (e1 : Env) (st1 : List Stmt) (h1 : advanceMany pre engineTickStmts (e0.enterTick t t) = some (e1, st1))
     (e : Env) (a : Option ArgExpr) (rest : List Stmt)
-    (h : advance "self.interpreter.tick" st1 e1 = some (e, a, rest)) :
+    (h : advance phase st1 e1 = some (e, a, true, true, rest)) :
     ∃ x, a = some x ∧ evalArg e 0 0 x = t ∧
       let ei := enterInterp interpTickStmts e (evalArg e 0 0 x)
       ei.param = t ∧ ei.engineField = t ∧ ei.interpField = t ∧ ei.wall = t := by
-  have hall : advanceMany (pre ++ ["self.interpreter.tick"]) engineTickStmts (e0.enterTick t t) = some (e, rest) := by
-    clear hs
-    generalize engineTickStmts = st0 at h1
-    generalize e0.enterTick t t = ea at h1
-    induction pre generalizing st0 ea with
-    | nil =>
-      simp only [advanceMany, Option.some.injEq, Prod.mk.injEq] at h1
-      obtain ⟨rfl, rfl⟩ := h1
-      simp [advanceMany, h]
-    | cons p ps ih =>
-      simp only [advanceMany, List.cons_append] at h1 ⊢
-      cases hp : advance p st0 ea with
-      | none => simp [hp] at h1
-      | some r =>
-        obtain ⟨e2, a2, r2⟩ := r
-        simp only [hp] at h1 ⊢
-        exact ih r2 e2 h1
-  have hfresh := phase_env_fresh e0 t (pre ++ ["self.interpreter.tick"]) (by simp)
-    (by
-      intro p hp
-      rw [List.mem_append] at hp
-      rcases hp with hp | hp
-      · exact hs p hp
-      · simp only [List.mem_singleton] at hp; subst hp; decide +kernel) e rest hall
-  -- the argument: from the one-phase lemma, started where the previous phases ended
-  have hpre : ∃ f, freshOK f st1 = true ∧ e1.param = t ∧ (f = true → e1.engineField = t) := by
-    clear h hall hfresh
-    have gen : ∀ (pre : List String) (st0 : List Stmt) (ea : Env) (f0 : Bool), freshOK f0 st0 = true → ea.param = t →
-        (f0 = true → ea.engineField = t) → ∀ e1 st1, advanceMany pre st0 ea = some (e1, st1) →
-        ∃ f, freshOK f st1 = true ∧ e1.param = t ∧ (f = true → e1.engineField = t) := by
-      intro pre
-      induction pre with
-      | nil =>
-        intro st0 ea f0 h0 hp hf e1 st1 hm
-        simp only [advanceMany, Option.some.injEq, Prod.mk.injEq] at hm
-        obtain ⟨rfl, rfl⟩ := hm
-        exact ⟨f0, h0, hp, hf⟩
-      | cons p ps ih =>
-        intro st0 ea f0 h0 hp hf e1 st1 hm
-        simp only [advanceMany] at hm
-        cases ha : advance p st0 ea with
-        | none => simp [ha] at hm
-        | some r =>
-          obtain ⟨e2, a2, r2⟩ := r
-          simp only [ha] at hm
-          obtain ⟨q1, _, _, _, _, f', q6, q7⟩ := advance_fresh p t st0 ea f0 h0 hp hf e2 a2 r2 ha
-          exact ih r2 e2 f' q6 q1 q7 e1 st1 hm
-    exact gen pre engineTickStmts (e0.enterTick t t) false engine_tick_assigns_before_use rfl
-      (fun h => by cases h) e1 st1 h1
-  obtain ⟨f, hf1, hf2, hf3⟩ := hpre
-  obtain ⟨_, _, _, _, harg, _⟩ := advance_fresh "self.interpreter.tick" t st1 e1 f hf1 hf2 hf3 e a rest h
-  obtain ⟨x, hx, hxv⟩ := harg (by decide +kernel)
+  obtain ⟨hp1, hw1, _, f, hf1, hf3⟩ := advanceMany_carry t pre engineTickStmts (e0.enterTick t t) false
+    engine_tick_assigns_before_use rfl (fun h => by cases h) e1 st1 h1
+  obtain ⟨q1, q2, _, q4, harg, _⟩ := advance_fresh phase t st1 e1 f hf1 hp1 hf3 e a true true rest h
+  obtain ⟨x, hx, hxv⟩ := harg rfl
   refine ⟨x, hx, hxv, ?_⟩
   have hi := enterInterp_fresh interpTickStmts interp_tick_assigns_first e (evalArg e 0 0 x)
   simp only
   rw [hi.1, hi.2.1, hi.2.2.1, hi.2.2.2, hxv]
-  exact ⟨hfresh.1, hfresh.2.1, rfl, hfresh.2.2⟩
+  exact ⟨q1, q4 rfl, rfl, q2.trans hw1⟩
+
+/-- The interpreter phase of the table is such a phase (it may reach tags and hands the time down). -/
+theorem interpreter_phase_passes_time :
+    (Stmt.call "self.interpreter.tick" (some .param) true true) ∈ engineTickStmts := by
+  decide +kernel
 
 /-- **`Disciplined` derived.**  In an environment where parameter, both fields and the wall clock read the tick's
     time `t` (the two theorems above), every scanned call site evaluates its time argument to `t`: the operation the
@@ -217,8 +164,8 @@ example :
 
 /-- Regression witness: `self._tick_time = tick_time` moved below `read_process_image()` is rejected. -/
 theorem late_field_assignment_rejected :
-    freshOK false [.call "self.uod.hwl.tick" none, .call "self.read_process_image" none,
-      .assign "self._tick_time" .param, .call "self.notify_tag_updates" none] = false := by
+    freshOK false [.call "self.uod.hwl.tick" none true false, .call "self.read_process_image" none true false,
+      .assign "self._tick_time" .param, .call "self.notify_tag_updates" none true false] = false := by
   decide +kernel
 
 /-! ## The value set in a tick carries that tick's time -/
